@@ -1186,14 +1186,16 @@ type iterator interface {
 }
 
 type mapIter struct {
-	mo *mapobj
-	i  int
+	mo    *mapobj
+	i     int
+	start int // rotation of the iteration order (Go leaves it unspecified)
 }
 
 func (it *mapIter) next(m *machine, fr *frame) value {
 	if it.mo != nil {
-		for it.i < len(it.mo.entries) {
-			e := it.mo.entries[it.i]
+		n := len(it.mo.entries)
+		for it.i < n {
+			e := it.mo.entries[(it.i+it.start)%n]
 			it.i++
 			if !e.deleted {
 				return tuple{true, copyVal(e.k), copyVal(e.v)}
@@ -1241,7 +1243,12 @@ func (it *strIter) next(m *machine, fr *frame) value {
 func (m *machine) rangeIter(fr *frame, x value, t types.Type) value {
 	switch x := x.(type) {
 	case *mapobj:
-		return &mapIter{mo: x}
+		it := &mapIter{mo: x}
+		// harness parameter map_order: the start of a map iteration is an environment decision
+		if x != nil && m.cfg.params["map_order"] != 0 && x.live > 1 && x.live <= 4 {
+			it.start = m.choose(len(x.entries), "map-order")
+		}
+		return it
 	case string, *sstr:
 		return &strIter{s: x}
 	}
